@@ -19,7 +19,7 @@ from harness import common
 
 GEN_MODULES = ['minimize']
 MODEL_TARGETS = ['model/M_Minimize.vo', 'model/M_MinimizeX.vo']
-PROOF_TARGETS = ['proofs/P_Minimize.vo', 'proofs/P_MinimizeWrap.vo', 'proofs/P_MinimizeScan.vo']
+PROOF_TARGETS = ['proofs/P_Minimize.vo', 'proofs/P_MinimizeWrap.vo', 'proofs/P_MinimizeScan.vo', 'proofs/P_MinimizeDeep.vo']
 LEVEL = 'proof'
 RULE = ('log-likelihood-ratio landscapes of real ZeroSigH0SingleDatasetTCLLHRatio instances (1..60 selected events, '
         '0..200 pure-background events, constant-array PDF ratios) with the optimum interior / at the lower / at the upper '
@@ -33,7 +33,7 @@ TRUSTED = [
     'axioms printed under the theorems at the real-number instance: ClassicalDedekindReals.sig_not_dec, sig_forall_dec, '
     'FunctionalExtensionality.functional_extensionality_dep, Classical_Prop.classic (Coq Reals / lra); the wrapper / status theorems that do not need '
     'an order are proved for every number system and are closed under the global context',
-    'translator/py2coq.py: reading of the 52 kernels of minimizer.py / parameters.py / llhratio.py (G_minimize.v)',
+    'translator/py2coq.py: reading of the 58 kernels of minimizer.py / parameters.py / llhratio.py (G_minimize.v)',
     'hand model M_Minimize.v of the control flow (loops as structural recursion on max_steps / max_repetitions), '
     'validated by this correspondence on every run',
     'extraction (ExtrOcamlBasic only) and the hand-written OCaml driver ocaml/c11/driver.ml incl. the float Num record',
@@ -589,8 +589,7 @@ def run_scan_case(ctx, case, lines, checks):
         warnings.simplefilter('ignore')
         try:
             (llmax, x, st) = llh.maximize(E['RSS'](1))
-            # the model prints the minimised value (fmin = -llmax, exact)
-            got = ['Ok', hx(-llmax), [hx(v) for v in x], int(st['warnflag']), int(st['niter']), hx(st['last_nr_step'])]
+            got = ['Ok', hx(llmax), [hx(v) for v in x], int(st['warnflag']), int(st['niter']), hx(st['last_nr_step'])]
             res = (llmax, x, int(st['warnflag']))
         except Exception as ex:
             got = ['Err', exc_kind(ex)]
@@ -608,7 +607,7 @@ def run_scan_case(ctx, case, lines, checks):
     if res is not None and seen != p2s:
         ctx.violation('NRNsScan2dMinimizerImpl.minimize', 'scan-grid', f'scanned {seen[:5]}.. expected {p2s[:5]}..',
                       case=dict(case), impl=seen, predicate='second parameter scanned on linspace(lo, hi, int((hi-lo)/step)+1)')
-    tab = table_from(impl.calls, 1.0)
+    tab = table_from(impl.calls, -1.0)
     toks = ['scan', '2', hx(case['ns_tol']), str(case['max_steps']), str(case['max_reps'])]
     for b in case['bounds']:
         toks += [hx(b[0]), hx(b[1])]
@@ -934,6 +933,11 @@ def gen_scripted_case(ctx, rng):
             else:
                 x.append(b[1] + rng.choice([1e-12, 1e-3, 1.0]))
         last = (k == n - 1)
+        if d >= 2 and rng.random() < 0.2:
+            # lower and upper violation in the same vector
+            x[0] = bounds[0][0] - rng.choice([1e-12, 1e-3, 1.0])
+            x[1] = bounds[1][1] + rng.choice([1e-12, 1e-3, 1.0])
+            ctx.count('scripted-both-violations')
         conv = rng.random() < (0.6 if last else 0.25)
         rep = rng.random() < 0.8
         script.append(('R', x, rng.uniform(-5, 5), conv, rep))
